@@ -592,10 +592,39 @@ impl Prop for C07 {
         } else {
             vec![]
         };
-        let cuts = match &workload {
+        let mut workload = workload;
+        let mut cuts = match &workload {
             Workload::Lines(lines) if rng.chance(1, 4) => (0..1 + rng.usize(2)).map(|_| PRELUDE.len() + rng.usize(lines.len() - PRELUDE.len() + 1)).collect(),
             _ => vec![],
         };
+        if let Workload::Lines(lines) = &mut workload {
+            if rng.chance(1, 25) {
+                // a function defined far down a long script of one run, called (and jumped into) from a short script
+                // of a later run on the same context: jump targets beyond the end of the later script
+                let mut first: Vec<String> = PRELUDE.iter().map(|s| s.to_string()).collect();
+                for k in 0..10 + rng.usize(120) {
+                    first.push(match rng.below(3) {
+                        0 => String::new(),
+                        1 => "# filler".to_string(),
+                        _ => format!("v2 = set {}", k),
+                    });
+                }
+                first.push("fn farfn".to_string());
+                first.push("    v3 = set in-function".to_string());
+                first.push("    return ${1}".to_string());
+                first.push("end".to_string());
+                first.push(":farlabel".to_string());
+                let cut = first.len();
+                let tail: Vec<String> = lines.drain(PRELUDE.len()..).collect();
+                first.push(rng.pick(&["r0 = farfn x", "farfn", "if farfn y", "goto :farlabel"]).to_string());
+                if rng.chance(1, 2) {
+                    first.push("end".to_string());
+                }
+                first.extend(tail);
+                *lines = first;
+                cuts = vec![cut];
+            }
+        }
         serde_json::to_value(Case { entropy: rng.next_u64(), workload, write_faults, cuts }).unwrap()
     }
     fn execute(&self, case: &Value, env: &WorkerEnv) -> Outcome {
